@@ -973,7 +973,7 @@ pub fn run_lag(opts: &Opts) -> i32 {
                 let first = rng.below(17 - cpus);
                 let settle = *rng.pick(&[3000u64, 3500]);
                 let noise = rng.below(2);
-                let burst = rng.chance(1, 4);
+                let burst = rng.chance(1, 2);
                 let args = vec![
                     "-c".to_string(),
                     format!("{}-{}", first, first + cpus - 1),
